@@ -14,17 +14,19 @@ TRUSTED_BASE_COMMON = [
 PROPS = {
     "C16": {
         "level": "proof",
-        "theorems": ["C16_binary_ops_exact", "C16_insert_remove_exact", "C16_contains_exact", "C16_construction_any_length"],
+        "theorems": ["C16_binary_ops_exact", "C16_insert_remove_exact", "C16_contains_exact", "C16_construction_any_length"] + ["C16_UNBOUNDED_contains", "C16_UNBOUNDED_insert", "C16_UNBOUNDED_remove", "C16_UNBOUNDED_merge", "C16_UNBOUNDED_exclude", "C16_UNBOUNDED_intersect", "C16_UNBOUNDED_subset", "C16_UNBOUNDED_canonical_forms_are_unique", "C16_delete_set_of_a_document_is_exact"],
         "theorem_kinds": {
             "C16_binary_ops_exact": "finite (8-clock universe, all 65536 pairs; kernel VM, lifted by forallb_forall)",
             "C16_insert_remove_exact": "finite (all 256 sets x all 36 ranges)",
             "C16_contains_exact": "finite",
             "C16_construction_any_length": "unbounded in sequence length (induction), bounded clock universe",
+            "C16_UNBOUNDED_contains": "unbounded", "C16_UNBOUNDED_insert": "unbounded", "C16_UNBOUNDED_remove": "unbounded", "C16_UNBOUNDED_merge": "unbounded", "C16_UNBOUNDED_exclude": "unbounded",
+            "C16_UNBOUNDED_intersect": "unbounded", "C16_UNBOUNDED_subset": "unbounded", "C16_UNBOUNDED_canonical_forms_are_unique": "unbounded", "C16_delete_set_of_a_document_is_exact": "unbounded (any well-formed block store)",
         },
         "rule": "exhaustive enumeration of the bounded universe on the implementation (IdRanges<()> over n clocks: every pair x merge/exclude/intersect/subset_of, every set x every range x insert/remove, contains_clock; IdMap<u32> over m clocks x 2 attributes: every pair x merge_with/intersect_with/diff_with, every range x insert/remove) plus seeded random multi-client IdSet programs; each result is compared representation-exact with the Coq model (extracted) and with a bit-set oracle; a case is non-trivial when the first operand has >= 2 ranges and the operands overlap without being equal (pairs), or the set has >= 2 ranges (unary), or it is a multi-client program; distinct by printed operands",
         "trusted_base": ["modelled, not verified: IdMapInner per-client lifting (BTreeMap as sorted association list), ContentAttributes as list with set equality; partition_point modelled on partitioned (sorted) inputs only"],
-        "modelled_not_verified": ["BlockSliceIter (iter_blocks)", "serde impls", "Hash impls", "DeleteSet::from_store / try_squash_with (covered with the L1 correspondence, see C15/C01 evidence)"],
-        "assumptions": ["bounded universe as the property states; unbounded statements for the simple operations are in Ids/RangesProofs.v when present"],
+        "modelled_not_verified": ["serde impls", "Hash impls", "DeleteSet::try_squash_with"],
+        "assumptions": ["the finite theorems cover the bounded universe the property states; the C16_UNBOUNDED_* theorems (Ids/RangesProofs.v) cover every canonical range list over N for insert / remove / merge / exclude / intersect / contains / subset and uniqueness of canonical forms; DeleteSet::from_store and IdSet::iter_blocks are transcribed in Crdt/WriteBlocks.v and tied under C06 / C07"],
     },
 }
 
